@@ -2601,8 +2601,9 @@ where
             }
         }
 
-        // Level 3 (topology)
-        if let Err(e) = self.is_valid() {
+        // Level 3 (topology), including the completion-time PL-manifold check that `validate()`
+        // runs after `is_valid()`.
+        if let Err(e) = self.is_valid().and_then(|()| self.validate_at_completion()) {
             violations.push(InvariantViolation {
                 kind: InvariantKind::Topology,
                 error: e.into(),
